@@ -91,6 +91,22 @@ func (e *c01Events) get(k string) int {
 	return e.counts[k]
 }
 
+// waitForUpTo waits for pred at most d and reports whether it held (an observation aid, never a verdict).
+func (e *c01Events) waitForUpTo(d time.Duration, pred func() bool) bool {
+	deadline := time.Now().Add(d)
+	timer := time.AfterFunc(d, func() { e.mu.Lock(); e.cond.Broadcast(); e.mu.Unlock() })
+	defer timer.Stop()
+	e.mu.Lock()
+	defer e.mu.Unlock()
+	for !pred() {
+		if time.Now().After(deadline) {
+			return false
+		}
+		e.cond.Wait()
+	}
+	return true
+}
+
 // waitFor blocks until pred holds (checked under the mutex) or the deadline passes.
 func (e *c01Events) waitFor(what string, pred func() bool) error {
 	deadline := time.Now().Add(c01Timeout)
@@ -117,7 +133,7 @@ type c01Tx struct {
 }
 
 func (x *c01Tx) EnqueueEvent(ev *types.Event) {}
-func (x *c01Tx) RegisterMetrics()            {}
+func (x *c01Tx) RegisterMetrics()             {}
 func (x *c01Tx) EnqueueSpan(sp *types.Span) {
 	rec := x.h.describe(sp)
 	x.mu.Lock()
@@ -149,39 +165,78 @@ func (m *c01Stress) GetSampleRate(traceID string) (uint, bool, string) {
 }
 
 type c01Harness struct {
-	conf    *config.MockConfig
-	clock   *clockwork.FakeClock
-	t0      time.Time
-	tick    time.Duration
-	coll    *InMemCollector
-	tx      *c01Tx
-	ev      *c01Events
-	stress  *c01Stress
-	sf      *sample.SamplerFactory
-	hr      *health.Health
-	ids     map[string]string // model trace -> real trace id
-	rev     map[string]string
-	traces  []string
-	nwork   int
-	rates   []int // sampler rate per epoch (1-based index-1)
-	epoch   int
-	added   int
-	ticks   int
-	reloads int
-	ejects  map[int]int
+	conf        *config.MockConfig
+	clock       *clockwork.FakeClock
+	t0          time.Time
+	tick        time.Duration
+	coll        *InMemCollector
+	tx          *c01Tx
+	ev          *c01Events
+	stress      *c01Stress
+	sf          *sample.SamplerFactory
+	hr          *health.Health
+	ids         map[string]string // model trace -> real trace id
+	rev         map[string]string
+	traces      []string
+	nwork       int
+	rates       []int // sampler rate per epoch (1-based index-1)
+	epoch       int
+	added       int
+	ticks       int
+	reloads     int
+	ejects      map[int]int
 	stressDrops map[string]int
-	unit    int // data size of one span
-	stop    func()
+	unit        int // data size of one span
+	stop        func()
+	inj         *c01Injector
 }
 
 // c01Config works around config.MockConfig.GetAddCountsToRoot returning the
 // AddSpanCountToRoot field (a defect of the test mock, not of production code).
-type c01Config struct{ *config.MockConfig }
+type c01Config struct {
+	*config.MockConfig
+	inj *c01Injector
+}
 
 func (c c01Config) GetAddCountsToRoot() bool {
 	c.Mux.RLock()
 	defer c.Mux.RUnlock()
 	return c.AddCountsToRoot
+}
+
+// c01Injector lets the harness deliver a second configuration change at the
+// moment the collector reads its configuration while processing a reload
+// (the getters below are the ones reloadConfigs and the workers' reload
+// branch call).
+type c01Injector struct {
+	mu    sync.Mutex
+	armed func()
+}
+
+func (j *c01Injector) fire() {
+	if j == nil {
+		return
+	}
+	j.mu.Lock()
+	f := j.armed
+	j.armed = nil
+	j.mu.Unlock()
+	if f != nil {
+		f()
+	}
+}
+
+// the change arrives right AFTER the collector has read the old value
+func (c c01Config) GetAddHostMetadataToTrace() bool {
+	v := c.MockConfig.GetAddHostMetadataToTrace()
+	c.inj.fire()
+	return v
+}
+
+func (c c01Config) GetSampleCacheConfig() config.SampleCacheConfig {
+	v := c.MockConfig.GetSampleCacheConfig()
+	c.inj.fire()
+	return v
 }
 
 // c01SpanID extracts the harness's span id from a hook event that carries the span.
@@ -335,7 +390,8 @@ func (h *c01Harness) Reset(init map[string]any) error {
 	met.Start()
 	h.hr = &health.Health{Clock: clockwork.NewFakeClock()} // its own clock: never ticks
 	h.hr.Start()
-	cfgw := c01Config{h.conf}
+	h.inj = &c01Injector{}
+	cfgw := c01Config{h.conf, h.inj}
 	lps := &pubsub.LocalPubSub{Config: cfgw, Metrics: met}
 	lps.Start()
 	h.sf = &sample.SamplerFactory{Config: cfgw, Metrics: met, Logger: &logger.NullLogger{}}
@@ -482,6 +538,39 @@ func (h *c01Harness) Apply(a map[string]any) (err error) {
 	case "ReloadCfg":
 		h.applyCfg(c01Map(a["cfg"]))
 		return h.reload()
+	case "ReloadCfgDuring":
+		// first change; while the collector reads its configuration for that reload, the second change arrives
+		h.applyCfg(c01Map(a["cfg1"]))
+		fired := make(chan struct{})
+		h.inj.mu.Lock()
+		h.inj.armed = func() {
+			h.applyCfg(c01Map(a["cfg2"]))
+			h.conf.Reload()
+			close(fired)
+		}
+		h.inj.mu.Unlock()
+		base := h.ev.get("reloaded")
+		h.conf.Reload()
+		select {
+		case <-fired:
+		case <-time.After(c01Timeout):
+			return fmt.Errorf("barrier timeout: the collector never read its configuration during the reload")
+		}
+		// both notifications must be processed; if the second one never is, go on after the deadline and let
+		// the projection show which configuration is in force (that is the observation, not this wait)
+		h.ev.waitForUpTo(5*time.Second, func() bool { return h.ev.counts["reloaded"] >= base+2 })
+		for w := 0; w < h.nwork; w++ { // workers have taken their reload signals
+			for {
+				ch := make(chan struct{})
+				h.coll.workers[w].pause <- ch
+				empty := len(h.coll.workers[w].reload) == 0
+				close(ch)
+				if empty {
+					break
+				}
+			}
+		}
+		return nil
 	case "StressSpan":
 		h.stress.mu.Lock()
 		h.stress.keep, h.stress.rate = verifkit.Bool(a, "keep"), uint(verifkit.Int(a, "rate"))
@@ -497,15 +586,20 @@ func (h *c01Harness) Apply(a map[string]any) (err error) {
 }
 
 func (h *c01Harness) reload() error {
-	h.reloads++
-	n := h.reloads
+	h.ev.mu.Lock()
+	base := h.ev.counts["reloaded"]
+	wbase := make([]int, h.nwork)
+	for w := 0; w < h.nwork; w++ {
+		wbase[w] = h.ev.counts[fmt.Sprintf("worker_reloaded/%d", w)]
+	}
+	h.ev.mu.Unlock()
 	h.conf.Reload()
-	if err := h.ev.waitFor("reload", func() bool { return h.ev.counts["reloaded"] >= n }); err != nil {
+	if err := h.ev.waitFor("reload", func() bool { return h.ev.counts["reloaded"] > base }); err != nil {
 		return err
 	}
 	return h.ev.waitFor("worker reloads", func() bool {
 		for w := 0; w < h.nwork; w++ {
-			if h.ev.counts[fmt.Sprintf("worker_reloaded/%d", w)] < n {
+			if h.ev.counts[fmt.Sprintf("worker_reloaded/%d", w)] <= wbase[w] {
 				return false
 			}
 		}
@@ -554,7 +648,7 @@ func (h *c01Harness) Project() (any, error) {
 		ndrop[t] = h.ev.ndrop[h.ids[t]] + h.stressDrops[t]
 	}
 	h.ev.mu.Unlock()
-	return map[string]any{"now": now, "buf": buf, "fwdSet": fwd, "ndec": ndec, "ndrop": ndrop}, nil
+	return map[string]any{"now": now, "buf": buf, "fwdSet": fwd, "ndec": ndec, "ndrop": ndrop, "hostOn": h.coll.localHostname() != ""}, nil
 }
 
 func TestVerifCollector(t *testing.T) {
